@@ -22,7 +22,13 @@ def setup(prog, ov=None, text=None, validate=True, variant="A", assemble=False):
     apiroute.assemble_from_objects) and build the reference Program.
     Returns (status, Setup|None); status 'ok' | 'skipped:...' | 'inconclusive:...'."""
     text = text if text is not None else sx.to_text(prog)
-    if assemble:
+    if assemble == "builder" or (isinstance(assemble, tuple) and assemble[0] == "builder"):
+        # through the object-oriented CircuitBuilder with the gate set in force (objects built at once or unevaluated)
+        from . import builder_route
+
+        bseed = assemble[1] if isinstance(assemble, tuple) else 0
+        o = lib.outcome(lambda: builder_route.via_builder(prog, bseed, native=native(variant))[0])
+    elif assemble:
         from .. import apiroute
 
         o = lib.outcome(apiroute.assemble_from_objects, prog, native(variant))
